@@ -41,3 +41,7 @@ func init() {
 func init() {
 	prop("TMP-WRITERS", []string{"EXECONCE", "WRITEONCE", "PUTKEYFLOW", "DELKEYS", "RMGUARD", "LIMITWRAP"}, "temporary grouping while rules are being built", "")
 }
+
+func init() {
+	prop("TMP-OPT", []string{"PLANMAP", "ROUTE", "NARROWONLYKEY", "SELECTMINMAX", "ROLECHAIN", "NOREADAFTEREXIT"}, "temporary grouping while rules are being built", "")
+}
